@@ -184,7 +184,7 @@ func (w *walWrap) Stop() error {
 		return nil
 	}
 	w.stopped = true
-	if w.n.crashing && !w.haveImage {
+	if w.n.mach.Dead && !w.haveImage {
 		w.killImage, _ = os.ReadFile(w.path)
 		w.haveImage = true
 	}
@@ -219,7 +219,12 @@ type node struct {
 	wal     *walWrap
 	life    int
 
-	crashing bool
+	crashing     bool
+	pendingCrash *crashPlan
+	lastWalImage     []byte
+	lastWalImageTorn bool
+	lastCrashPower   bool
+	downSince    time.Duration
 	halted   bool // stopped for good after a (suppressed) CONSENSUS FAILURE
 	started  bool // receiveRoutine was launched (cs.Wait() is safe)
 
@@ -300,6 +305,7 @@ func (n *node) boot() (err error) {
 	s := n.s
 	n.life++
 	n.crashing = false
+	n.wal = nil
 	n.mu.Lock()
 	n.obs, n.failure = nil, ""
 	n.mu.Unlock()
